@@ -32,6 +32,9 @@ def generator_sets(tier):
                         ((), RET)),
         'kill-start-other': (((('kill', 0), ('start', 0)), None),
                              ((('kill', 1), ('start', 1)), None), ((), RET)),
+        # starts another one and, in the same step, goes to sleep / returns
+        'start-other-then-wait': (((('start', 0),), 1),
+                                  ((('start', 1),), RET)),
     }
     # three coroutines pausing in the same frame for 0.5 / 2 / 1 time units:
     # the wait heap holds three records in a non-sorted order
@@ -44,7 +47,8 @@ def generator_sets(tier):
     if tier == 'quick':
         sets['odd-waits'] = odd[1:]
         for name in ('kill-self-return', 'kill-start-self-return',
-                     'kill-other', 'kill-start-other'):
+                     'kill-other', 'kill-start-other',
+                     'start-other-then-wait'):
             sets[name] = (g1, script_from_yields((None, 1)), variants[name])
         sets['three-waiters'] = waiters
         return sets
